@@ -12,15 +12,15 @@
    pop = deletion of that one vertex), and only then.
 
    NOT proved (T17b-e of DESIGN; the property is PARTIAL):
-     - de Casteljau correctness of bezier_subdivide over Q, equidistance of arc
-       points from the centre under libm hypotheses, first/last arc vertex = a / c
-       (the Catmull-Rom polynomial identity T17c IS proved below, over the reals);
+     (T17b de Casteljau subdivision, T17c the Catmull-Rom polynomial identity
+     and T17d the circum-centre and arc points under libm hypotheses ARE proved
+     below, over the reals, on definitions shared with the model)
      - the Hausdorff bound between path and exact curve (flatness 0.25, arc
        sagitta 0.1, 50 Catmull steps, 6 px osu! simplification).
    The bound is measured by the oracle of harness/src/c17.rs against curves
    evaluated exactly in f64 (de Casteljau, circumcircle, Catmull polynomial). *)
 From RM Require Import Model.ControlPoints Model.Curve Gen.Generated Proofs.BezierRefine Proofs.PathFacts
-  Proofs.CatmullFacts.
+  Proofs.CatmullFacts Proofs.ArcExact Proofs.DeCasteljau.
 From Coq Require Import Reals.
 Open Scope Z_scope.
 
@@ -113,6 +113,25 @@ Theorem C17_catmull_vertex_count :
 Proof. exact catmull_length. Qed.
 Print Assumptions C17_catmull_vertex_count.
 
+(* T17b [exact arithmetic]: bezier_subdivide.  The model's subdivision
+   (avg_step / subdiv: repeated averaging of neighbours, heads -> left polygon,
+   lasts -> right polygon) is the instance, for points and (a + b) / 2 in
+   binary32, of the generic subdiv_g; for real coordinates (each coordinate
+   separately: the averaging is component-wise) the two polygons evaluate, by
+   de Casteljau's algorithm [dc], to the same curve as the parent on [0, 1/2]
+   and on [1/2, 1] *)
+Theorem C17_model_subdivision_is_generic :
+  forall n m, subdiv n m = subdiv_g avg2 pos0 n m.
+Proof. exact model_subdiv. Qed.
+Print Assumptions C17_model_subdivision_is_generic.
+
+Theorem C17_de_casteljau_subdivision :
+  forall n (m : list R), length m = S n ->
+  let '(L, Rr) := subdiv_g avgR 0%R (S n) m in
+  forall t : R, dc n t L = dc n (t / 2) m /\ dc n t Rr = dc n ((1 + t) / 2) m.
+Proof. exact de_casteljau_subdivision. Qed.
+Print Assumptions C17_de_casteljau_subdivision.
+
 (* T17c [exact arithmetic]: the Catmull coefficient/evaluation formulas of the
    model are written once over a record of scalar operations; read over the
    reals they are the uniform Catmull-Rom polynomial, which interpolates v2 at
@@ -136,6 +155,42 @@ Theorem C17_model_uses_the_same_formulas :
   catmull_coord = catmull_coord_g f32_ops /\ catmull_eval = catmull_eval_g f32_ops.
 Proof. exact model_uses_same_text. Qed.
 Print Assumptions C17_model_uses_the_same_formulas.
+
+(* T17d [exact arithmetic]: the circum-centre formula (Model/Curve.v:
+   arc_centre_g, used by circular_arc_properties with the binary32 operations)
+   read over the reals gives a point equidistant from a, b, c; an arc point
+   centre + (cos, sin) * radius (arc_point is the IEEE instance of arc_coord_g)
+   is at distance radius from the centre as soon as cos^2 + sin^2 = 1; it IS
+   the vertex v when radius * (cos, sin) = v - centre, which is what
+   theta_start = atan2(a - centre) (fraction 0) and theta_start + direction *
+   range (fraction 1, the angle of c) give for an exact libm *)
+Theorem C17_centre_equidistant :
+  forall ax ay bx by_ cx cy : R, det2 ax ay bx by_ cx cy <> 0%R ->
+  let '(X, Y) := arc_centre_g Rplus Rminus Rmult Rdiv 2%R ax ay bx by_ cx cy in
+  sqd ax ay X Y = sqd bx by_ X Y /\ sqd ax ay X Y = sqd cx cy X Y.
+Proof. exact centre_equidistant. Qed.
+Print Assumptions C17_centre_equidistant.
+
+Theorem C17_model_arc_point_formula :
+  forall lm pr divisor directed i,
+  arc_point lm pr divisor directed i =
+  let theta := D.add (a_theta_start pr) (D.mul (D.div (D.of_Z (Z.of_nat i)) divisor) directed) in
+  mkPos (arc_coord_g f32_of_f64 S.add S.mul (px (a_centre pr)) (l_cos lm theta) (a_radius pr))
+        (arc_coord_g f32_of_f64 S.add S.mul (py (a_centre pr)) (l_sin lm theta) (a_radius pr)).
+Proof. exact model_arc_point. Qed.
+Print Assumptions C17_model_arc_point_formula.
+
+Theorem C17_arc_points_on_the_circle :
+  forall X Y r co si : R, (co ^ 2 + si ^ 2 = 1)%R ->
+  sqd (arc_coord_R X co r) (arc_coord_R Y si r) X Y = (r ^ 2)%R.
+Proof. exact arc_point_on_circle. Qed.
+Print Assumptions C17_arc_points_on_the_circle.
+
+Theorem C17_arc_end_points_are_the_vertices :
+  forall X Y vx vy r co si : R, (r * co = vx - X)%R -> (r * si = vy - Y)%R ->
+  arc_coord_R X co r = vx /\ arc_coord_R Y si r = vy.
+Proof. exact arc_point_is_vertex. Qed.
+Print Assumptions C17_arc_end_points_are_the_vertices.
 
 (* ---------- the joint vertex appears once ---------- *)
 
